@@ -529,7 +529,12 @@ impl MqttShared {
     pub(super) fn wait_readiness(&self) -> Option<pool::Receiver<()>> {
         let mut queues = self.queues.borrow_mut();
 
-        if queues.inflight.len() >= self.cap.get()
+        if self.flags.get().contains(Flags::STOPPED) {
+            // queues are cleared already, nobody would wake this waiter;
+            // sender is dropped, so receiver resolves with an error
+            let (_, rx) = self.pool.waiters.channel();
+            Some(rx)
+        } else if queues.inflight.len() >= self.cap.get()
             || self.flags.get().contains(Flags::WRB_ENABLED)
         {
             let (tx, rx) = self.pool.waiters.channel();
